@@ -338,12 +338,12 @@ Definition run_router (id : N) (server prefix : bytes) (routes reqs : list arg) 
   ls ++ run_reqs id 0 rt reqs.
 
 (* ---------- domain 9: the server on its kernel model ---------- *)
-Fixpoint ins_by_key (p : bytes * (nat * request)) (l : list (bytes * (nat * request))) :=
+Fixpoint ins_by_key (p : bytes * (nat * nat * request)) (l : list (bytes * (nat * nat * request))) :=
   match l with
   | [] => [p]
   | q :: r => if bleb (fst p) (fst q) then p :: l else q :: ins_by_key p r
   end.
-Definition sort_yields (ys : list (nat * request)) : list (bytes * (nat * request)) :=
+Definition sort_yields (ys : list (nat * nat * request)) : list (bytes * (nat * nat * request)) :=
   fold_right ins_by_key [] (map (fun y => (s_req (snd y), y)) ys).
 
 Definition s_serr (e : serr) : bytes :=
@@ -430,7 +430,7 @@ Definition run_srv_op (id : N) (i : nat) (has_kill : bool) (w : world) (op : arg
         let idx := N.to_nat (k mod N.of_nat (length (w_tokens w))) in
         match nth_error (w_tokens w) idx with
         | None => (w, [pre ++ B"resp none"])
-        | Some (g, _) =>
+        | Some (g, _, _) =>
           let w1 := mkW (w_clients w) (w_conns w) (w_backlog w) (remove_nth idx (w_tokens w))
                         (w_nextg w) (w_limit w) (w_killed w) in
           match respond w1 g (response_of r) with
@@ -446,7 +446,7 @@ Definition run_srv_op (id : N) (i : nat) (has_kill : bool) (w : world) (op : arg
         let idx := N.to_nat (k mod N.of_nat (length (w_tokens w))) in
         match nth_error (w_tokens w) idx with
         | None => (w, [pre ++ B"resp none"])
-        | Some (g, rq) =>
+        | Some (g, _, rq) =>
           let w1 := mkW (w_clients w) (w_conns w) (w_backlog w) (remove_nth idx (w_tokens w))
                         (w_nextg w) (w_limit w) (w_killed w) in
           let r := apply_op (response_new Http11 OK) (SetBody (B"echo:" ++ rl_uri (r_line rq))) in
